@@ -173,13 +173,16 @@ def run_case(case):
             if phi.currentLayout != lay:
                 phi.setLayout(lay)
             out["norms"][("random", "phi", lay)] = {"l2phi": norms.l2(eta[:3], phi.getLayout(lay)).l2NormSquared(phi)}
-        # --- min / max at every drawing rank
-        for dr in range(comm.Get_size()):
-            out["minmax"].append(("all", dr, None, None, f.getMin(dr), f.getMax(dr)))
-            for axes, fixes in fix_choices:
-                a = axes if len(axes) > 1 else axes[0]
-                v = fixes if len(fixes) > 1 else fixes[0]
-                out["minmax"].append(("fix", dr, axes, fixes, f.getMin(dr, a, v), f.getMax(dr, a, v)))
+        # --- min / max at every drawing rank, for a sign-changing, an all-negative and an all-positive field
+        for shift in (0.0, -10.0, 10.0):
+            sim.scatter(f, F + shift)
+            for dr in range(comm.Get_size()):
+                out["minmax"].append(("all", dr, None, None, f.getMin(dr), f.getMax(dr), shift))
+                for axes, fixes in fix_choices:
+                    a = axes if len(axes) > 1 else axes[0]
+                    v = fixes if len(fixes) > 1 else fixes[0]
+                    out["minmax"].append(("fix", dr, axes, fixes, f.getMin(dr, a, v), f.getMax(dr, a, v), shift))
+        sim.scatter(f, F)
         out["local_minmax"] = (f.getMin(), f.getMax())
         # --- collector
         diag = DiagnosticCollector(comm, saveStep, dt, f, phi)
@@ -244,18 +247,18 @@ def run_case(case):
     # --- min / max
     n_entries = len(res[0]["minmax"])
     for k in range(n_entries):
-        kind, dr, axes, fixes, _mn, _mx = res[0]["minmax"][k]
+        kind, dr, axes, fixes, _mn, _mx, shift = res[0]["minmax"][k]
         if kind == "all":
-            sub = F
+            sub = F + shift
         else:
             idx = [slice(None)] * 4
             for a, v in zip(axes, fixes):
                 idx[a] = v
-            sub = F[tuple(idx)]
+            sub = (F + shift)[tuple(idx)]
         for r in range(P):
-            _k, _dr, _a, _f, mn, mx = res[r]["minmax"][k]
+            _k, _dr, _a, _f, mn, mx, _s = res[r]["minmax"][k]
             ev["minmax_compared"] += 1
-            cls.add("%s/minmax/%s" % (base, "whole" if kind == "all" else "fix%d" % len(axes)))
+            cls.add("%s/minmax/%s/%s" % (base, "whole" if kind == "all" else "fix%d" % len(axes), "mixed-sign" if shift == 0 else ("all-negative" if shift < 0 else "all-positive")))
             if r == dr:
                 if mn != sub.min() or mx != sub.max():
                     return result(VIOL, cls=sorted(cls), events=ev, key="C17:minmax/%s" % ("whole" if kind == "all" else "fixed-%d-axes" % len(axes)),
